@@ -125,11 +125,12 @@ func keyID(key string) int64 {
 
 type gateRedis struct {
 	redis.Cmdable
-	ctl      *controller
-	mr       *miniredis.Miniredis
-	lastSync time.Time
-	smu      sync.Mutex
-	cmdLog   []string // every command seen, for C16 (mutating commands of an SSO proxy)
+	ctl       *controller
+	mr        *miniredis.Miniredis
+	lastSync  time.Time
+	smu       sync.Mutex
+	clockSkew time.Duration // store clock minus replica clock (0 = in step)
+	cmdLog    []string      // every command seen, for C16 (mutating commands of an SSO proxy)
 }
 
 func (g *gateRedis) syncTime() {
@@ -140,7 +141,7 @@ func (g *gateRedis) syncTime() {
 		g.mr.FastForward(d)
 		g.lastSync = now
 	}
-	g.mr.SetTime(now)
+	g.mr.SetTime(now.Add(g.clockSkew)) // the store's own clock (absolute expiries are evaluated against it)
 }
 
 func (g *gateRedis) logCmd(ctx context.Context, s string) {
